@@ -728,7 +728,7 @@ func (r *Decoder) decodeValueNode(ectx evaluationContext, v *jsonldinternal.Expa
 			datatypeExplicitlySet := len(lit.Datatype) > 0
 
 			if !datatypeExplicitlySet {
-				if hasDecimal || (valuePrimitive.Value < math.MinInt32 || valuePrimitive.Value > math.MaxInt32) {
+				if hasDecimal || math.Abs(valuePrimitive.Value) >= 1e21 {
 					lit.Datatype = xsdiri.Double_Datatype
 				} else {
 					lit.Datatype = xsdiri.Integer_Datatype
